@@ -392,6 +392,8 @@ class Engine:
         v = st.lookup(fid, node.id)
         if v is not None:
             return [("ok", st, v)]
+        if ("global", node.id) in st.ghost:
+            return [("ok", st, st.ghost[("global", node.id)])]
         g = self.global_name(node.id, st)
         if g is None:
             raise Unsupported(f"unbound name {node.id!r} at line {node.lineno}")
@@ -1256,7 +1258,12 @@ class Engine:
         return [("next", st, None)]
 
     def s_Global(self, node, st, fid):
-        return [("next", st, None)]
+        # `global X`: later assignments to X in this function write the module-level variable (ghost ("global", X)), reads fall
+        # through to it (e_Name); a name that is ALSO a pseudo-parameter of the contract under verification (the module global
+        # as seen at entry) keeps being read and written as that local
+        decl = st.ghost.get(("gdecl", fid), ())
+        names = tuple(n for n in node.names if st.lookup(fid, n) is None)
+        return [("next", st.setghost(("gdecl", fid), decl + names), None)]
 
     s_Nonlocal = s_Global
 
@@ -1313,6 +1320,8 @@ class Engine:
         from . import builtins as B
         if isinstance(target, ast.Name):
             owner = fid
+            if target.id in st.ghost.get(("gdecl", fid), ()):
+                return [("ok", st.setghost(("global", target.id), val), NONE)]
             return [("ok", st.setvar(owner, target.id, val), NONE)]
         if isinstance(target, (ast.Tuple, ast.List)):
             items = B.unpack(self, st, val, len(target.elts))
